@@ -1156,6 +1156,9 @@ var Info = map[string][]Part{
 			Token:         Basic{jen.Qual("go/token", "ARROW")},
 			Exists:        Expr(func(n *jen.Statement) *jen.Statement { return jen.Op("!").Add(n).Dot("Implicit") }),
 			PositionField: Field{"Semicolon"},
+			// an implicit semicolon (a label directly before "}") has the position of what follows;
+			// without it End() of the statement and of everything that ends with it is invalid
+			PositionWhenAbsent: true,
 		},
 		Decoration{
 			Name: "End",
@@ -2483,6 +2486,9 @@ type Token struct {
 	PositionField FieldSpec
 	TokenField    FieldSpec
 	NoPosField    FieldSpec
+	// PositionWhenAbsent: the position field is also set when the token does not exist (Exists is
+	// false) - go/parser gives an omitted token the position of what follows it.
+	PositionWhenAbsent bool
 }
 
 type Bad struct {
